@@ -52,13 +52,13 @@ type c02Universe struct {
 }
 
 type c02Sys struct {
-	w       *drv.World
-	m       *model.Store
-	u       *c02Universe
-	ops     []engine.Op
-	reopen  bool // C15: clean reopen predicate instead of C02 reads
-	propID  string
-	last    string
+	w      *drv.World
+	m      *model.Store
+	u      *c02Universe
+	ops    []engine.Op
+	reopen bool // C15: clean reopen predicate instead of C02 reads
+	propID string
+	last   string
 }
 
 const c02MetaKey = "x-amz-meta-a"
